@@ -212,6 +212,9 @@ def r033_generated(ctx):
             elif lits == [A2.C._not(cA), A2.C._not(cB)]:
                 roles["bound"] = n
         okp = set(roles) == {"sample", "transform", "bound"}
+        # ... for every keyword: nothing leaves the loop early (a break after the first sample parameter drops the rest)
+        early = [x for x in rc.events if x.kind in ("break", "return", "return-inlined", "raise") and x.loops and lev.data["lid"] in x.loops]
+        okp = okp and not early
     ctx.ob("R03.3", fqc, lev.node, okp, "**other_params is split exhaustively and disjointly: names in sample_param_names -> "
            "sample params, 'method' -> transform params, everything else -> bound into the metric", construct="parameter partition")
     mfc = [e for e in rc.events if e.kind == "call" and e.data.get("constructs") == MF]
